@@ -358,8 +358,9 @@ def run(ctx, rep):
 
 def check_extract_class_name(fx, rep, rule):
     for impl in ("mapper", "cache"):
-        c = A.func(fx, impl, "extract_class_name")
-        p = A.one(rep, rule, impl + "::extract_class_name", c)
+        wl, wo = RD.iterator_roles(fx, RD_silent(), rule, impl)
+        c = RD.str_helpers(fx, fx.bodies[wl]) if wl else []
+        p = A.one(rep, rule, impl + ": outer-simple-name helper called by the line iterator", c)
         if not p:
             continue
         rep.fn(p)
@@ -380,6 +381,13 @@ def check_extract_class_name(fx, rep, rule):
         bad, n = fc.compare_paths(res, ref, lambda st, out: out[1])
         report_cmp(rep, rule, "%s/outer-simple/%s" % (rule, impl), b, res, bad,
                    "segment after the last '.', cut at the first '$' (outer simple class name)")
+
+
+class RD_silent:
+    """a throw-away report (role discovery only; the real instances are recorded by the caller)"""
+    def __getattr__(self, name):
+        return lambda *a, **k: None
+    instances = []
 
 
 def run_controls(ctx, rep):
